@@ -610,8 +610,10 @@ def interp1d(
             else:
                 result = np.broadcast_to(y, (len(np.atleast_1d(input_var)),))
 
-            if not isinstance(input_var, np.ndarray):
-                # the output of scipy's interp1d is always an array
+            if np.ndim(input_var) == 0:
+                # scalar query: one value (the output of scipy's interp1d
+                # is always an array); lists, tuples and arrays get one
+                # row per queried position, as with more than one sample
                 result = np.array(result[0])
 
             return result
